@@ -1,6 +1,30 @@
 import SJ.Proofs.GoFloatFmtLemmas
 set_option linter.unusedVariables false
 set_option linter.unusedSimpArgs false
+/-
+GoFloatFmt — the hand model `Model/FloatFmt.lean` IS the meaning (`GoSem.exec`) of the syntax trees the translator
+printed for the float formatting glue: `gomin`, `gomax`, `gofmtF`, `goappendFloatF` (appendfloat_f.go) and
+`goappendFloat` (parsed_json.go).
+
+* `go_min_source_tie`, `go_max_source_tie`: `min`/`max` on `Int`, every fuel.
+* `fmtF_run`: `fmtF` on arbitrary arguments with `0 ≤ nd ≤ len(d.d)` returns `dst ++ fmtFGo …`;
+  `go_fmtF_source_tie`: on the digits of a `Shortest` and `prec = max(nd - dp, 0)` that is `dst ++ FloatFmt.fmtF neg sh`.
+  Fuel: `fmtFFuel nd dp prec = max (dp - min nd dp) prec + 2` (the longer loop, its initialisation, its last test).
+* `go_appendFloatF_source_tie`: `appendFloatF(dst, f) = dst ++ fmtF (sign f) (shortest |f|)` for *every* bit pattern
+  (zero, denormal, normal mantissa/exponent extraction; `ryuFtoaShortest` by its contract in `GoSem.extCall`).
+  Fuel: `affFuel bits` = that of `fmtF` on the shortest digits, plus one for the call.
+* `go_floatfmt_source_tie`: `appendFloat(dst, f)` returns `dst ++ b, nil` when `FloatFmt.appendFloat bits = some b`
+  and `nil, err` when it is `none`; never a panic, never stuck, the tape untouched.  Fuel: `fuelOK fuel bits`, i.e.
+  `floatFuel bits ≤ fuel`, with `floatFuel bits = affFuel bits + 1` on the `%f` path (`1e-6 ≤ |f| < 1e21` or `f = 0`)
+  and `0` otherwise (the `%e` path and Inf/NaN run no loop and no translated call).
+  `GoSem` conflates `nil` and the empty slice: the error return is `[.bytes #[], .bool true]`.
+
+No hypothesis on `dst`, `bits`, the tape.  No difference between model and source was found: the only differences of
+*shape* are (1) the model applies `cleanExp` to the freshly formatted text, the Go code rewrites the tail of the
+whole buffer `dst ++ text` in place — equal because `fmtE` yields at least 4 bytes (`fmtE_size`, `goClean_append`);
+(2) the model compares bit patterns with `loBits`/`hiBits`, the Go code compares floats with the constants 1e-6 and
+1e21 — equal on non-negative non-NaN values (`fcmpBits_pos`, `loBits_eq`, `hiBits_eq`).
+-/
 namespace SJ.GoFloatFmt
 open SJ SJ.GoSem SJ.Generated SJ.FloatFmt SJ.FloatFmtProofs
 
@@ -25,5 +49,349 @@ def fmtFEnv (dst : Bytes) (neg : Bool) (dd : Bytes) (nd dp : Int) (dneg : Bool) 
 theorem FIn_fmtFEnv (dst : Bytes) (neg : Bool) (dd : Bytes) (nd dp : Int) (dneg : Bool) (prec : Int) :
     FIn (fmtFEnv dst neg dd nd dp dneg prec) dd nd dp prec neg := by
   constructor <;> simp [fmtFEnv, Env.get]
+
+/-- **`fmtF`, any arguments**: for a digit buffer `dd` with `0 ≤ nd ≤ len(dd)` (no slice or index of `d.d` can fail)
+    the function returns `dst` extended by `fmtFGo` — sign, integer part padded with zeros, fraction of `prec`
+    digits — whenever the fuel covers its longer loop. -/
+theorem fmtF_run (dst : Bytes) (neg : Bool) (dd : Bytes) (nd dp : Int) (dneg : Bool) (prec : Int) (fuel : Nat)
+    (tape : Array UInt64) (h0 : 0 ≤ nd) (h1 : nd ≤ dd.size) (hf : fmtFFuel nd dp prec ≤ fuel) :
+    ∃ s, runFun goFuns gofmtF fuel ⟨fmtFEnv dst neg dd nd dp dneg prec, tape⟩ =
+      .ret s [.bytes (dst ++ fmtFGo neg dd nd dp prec)] ∧ s.tape = tape := by
+  obtain ⟨e', h, _⟩ := fmtF_exec tape fuel _ dd nd dp prec neg dst (FIn_fmtFEnv dst neg dd nd dp dneg prec)
+    (by simp [fmtFEnv, Env.get]) h0 h1 hf
+  exact ⟨⟨e', tape⟩, by rw [runFun, h], rfl⟩
+
+/-- **`fmtF` is `FloatFmt.fmtF`**: on the ASCII digits of a `Shortest` and `prec = max(nd - dp, 0)` (what
+    `appendFloatF` passes). -/
+theorem go_fmtF_source_tie (dst : Bytes) (neg dneg : Bool) (sh : Shortest) (fuel : Nat) (tape : Array UInt64)
+    (hf : fmtFFuel sh.digits.length sh.dp (max ((sh.digits.length : Int) - sh.dp) 0) ≤ fuel) :
+    ∃ s, runFun goFuns gofmtF fuel
+        ⟨fmtFEnv dst neg (sh.digits.map digitChar).toArray sh.digits.length sh.dp dneg
+          (max ((sh.digits.length : Int) - sh.dp) 0), tape⟩ =
+      .ret s [.bytes (dst ++ FloatFmt.fmtF neg sh)] ∧ s.tape = tape := by
+  have := fmtF_run dst neg (asc sh.digits).toArray sh.digits.length sh.dp dneg
+    (max ((sh.digits.length : Int) - sh.dp) 0) fuel tape (by omega) (by simp [asc]) hf
+  rw [fmtFGo_model] at this
+  exact this
+
+/-- `fmtF(a1, a2, digs, a3)` through `callFun`, from any caller that holds the struct `digs` and no shared buffers -/
+theorem callFun_fmtF (s : St) (f : Nat) (a1 a2 a3 : Expr) (dst : Bytes) (neg : Bool) (dd : Bytes) (nd dp : Int)
+    (dneg : Bool) (prec : Int)
+    (g1 : s.env.get "digs.d" = some (.bytes dd)) (g2 : s.env.get "digs.nd" = some (.int nd))
+    (g3 : s.env.get "digs.dp" = some (.int dp)) (g4 : s.env.get "digs.neg" = some (.bool dneg))
+    (hS : s.env.get "Strings.B" = none) (hM : s.env.get "Message" = none)
+    (e1 : evalE s a1 = .val (.bytes dst)) (e2 : evalE s a2 = .val (.bool neg)) (e3 : evalE s a3 = .val (.int prec))
+    (h0 : 0 ≤ nd) (h1 : nd ≤ dd.size) (hf : fmtFFuel nd dp prec ≤ f) :
+    ∃ e', callFun goFuns f "" "fmtF" ["digs"] [a1, a2, a3] s =
+      .ret ⟨e', s.tape⟩ [.bytes (dst ++ fmtFGo neg dd nd dp prec)] := by
+  obtain ⟨e', h, hk⟩ := fmtF_exec s.tape f _ dd nd dp prec neg dst (FIn_fmtFEnv dst neg dd nd dp dneg prec)
+    (by simp [fmtFEnv, Env.get]) h0 h1 hf
+  have hin := (FIn_fmtFEnv dst neg dd nd dp dneg prec).keep hk
+  have k4 : e'.get "d.neg" = some (.bool dneg) := by rw [hk _ (by decide)]; simp [fmtFEnv, Env.get]
+  simp only [fmtFEnv] at h
+  rw [callFun]
+  simp [goFuns, gofmtF, evalEs, e1, e2, e3, g1, g2, g3, g4, hS, hM, copyPtrs, copyFields, copyGlobals, globalVars,
+    bindParams, Env.set, Env.get]
+  simp only [gofmtF] at h
+  rw [h]
+  simp [copyFields, copyPtrsBack, hin.dd, hin.nd, hin.dp, k4]
+
+/-! ## `appendFloatF` -/
+
+/-- up to and including `digs.d = buf[:]` -/
+def affPre : List Stmt := goappendFloatF.body.take 17
+def ryuStmt : Stmt :=
+  .extAssign ["digs.d", "digs.nd", "digs.dp"] "ryuFtoaShortest" [(.v "mant"), (.bin .sub (.v "exp") (.int 52))]
+def maxStmt : Stmt := .callAssign ["prec"] "" "max" [] [(.bin .sub (.v "digs.nd") (.v "digs.dp")), (.int 0)]
+def fmtStmt : Stmt := .retCall "" "fmtF" ["digs"] [(.v "dst"), (.v "neg"), (.v "prec")]
+theorem aff_body : goappendFloatF.body = affPre ++ [ryuStmt, maxStmt, fmtStmt] := rfl
+
+/-- fuel for `appendFloatF(dst, f)`: the call of `fmtF` and its loops on the shortest digits of `|f|` -/
+def affFuel (bits : UInt64) : Nat :=
+  fmtFFuel (shortest (absOf bits)).digits.length (shortest (absOf bits)).dp
+    (max (((shortest (absOf bits)).digits.length : Int) - (shortest (absOf bits)).dp) 0) + 1
+
+section aff
+attribute [local simp] exec exec1 execCases evalE evalEs Env.get Env.set isOneOf binop convert ofE
+
+/-- mantissa and exponent extraction (zero, denormal and normal inputs alike) -/
+theorem affPre_exec (dst : Bytes) (bits : UInt64) (fuel : Nat) (tape : Array UInt64) :
+    ∃ e, exec goFuns fuel affPre ⟨[("dst", .bytes dst), ("val", .u64 bits)], tape⟩ = .normal ⟨e, tape⟩ ∧
+      e.get "dst" = some (.bytes dst) ∧ e.get "neg" = some (.bool ((bits >>> 63) != 0)) ∧
+      e.get "mant" = some (.u64 (goMant bits)) ∧ e.get "exp" = some (.int (goExp bits)) ∧
+      e.get "digs.neg" = some (.bool false) ∧ e.get "Strings.B" = none ∧ e.get "Message" = none := by
+  by_cases hx : exOf bits = 0
+  · refine ⟨_, by simp [affPre, goappendFloatF, toInt64_shr52, hiWord_and, hx]; rfl, ?_⟩
+    simp [goMant, goExp, hx]
+  · have hx' : ¬ (0 : Int) = (exOf bits : Int) := by omega
+    refine ⟨_, by simp [affPre, goappendFloatF, toInt64_shr52, hiWord_and, hx, hx']; rfl, ?_⟩
+    simp [goMant, goExp, hx]
+
+/-- the body of `appendFloatF` on its frame -/
+theorem appendFloatF_exec (dst : Bytes) (bits : UInt64) (fuel : Nat) (tape : Array UInt64) (hf : affFuel bits ≤ fuel) :
+    ∃ e', exec goFuns fuel goappendFloatF.body ⟨[("dst", .bytes dst), ("val", .u64 bits)], tape⟩ =
+      .ret ⟨e', tape⟩ [.bytes (dst ++ FloatFmt.fmtF ((bits >>> 63) != 0) (shortest (absOf bits)))] := by
+  obtain ⟨e, hpre, d1, d2, d3, d4, d5, d6, d7⟩ := affPre_exec dst bits fuel tape
+  obtain ⟨f, rfl⟩ : ∃ f, fuel = f + 1 := ⟨fuel - 1, by unfold affFuel at hf; omega⟩
+  have hryu := ryu_contract bits
+  unfold affFuel at hf
+  rw [← fmtFGo_model]
+  revert hryu hf
+  generalize shortest (absOf bits) = sh
+  intro hf hryu
+  -- the three results of `ryuFtoaShortest`
+  let e2 : Env := ((e.set "digs.d" (.bytes (asc sh.digits).toArray)).set "digs.nd" (.int sh.digits.length)).set
+    "digs.dp" (.int sh.dp)
+  have h2 : exec1 goFuns (f + 1) ryuStmt ⟨e, tape⟩ = .normal ⟨e2, tape⟩ := by
+    simp [ryuStmt, d3, d4, hryu, assignTargets, e2]
+  -- `prec = max(digs.nd - digs.dp, 0)`
+  have hmax := callFun_max ⟨e2, tape⟩ (.bin .sub (.v "digs.nd") (.v "digs.dp")) (.int 0)
+    ((sh.digits.length : Int) - sh.dp) 0 f (by simp [e2, Env.get_set, d6]) (by simp [e2, Env.get_set, d7])
+    (by simp [e2, Env.get_set]) (by simp)
+  let e3 : Env := e2.set "prec" (.int (max ((sh.digits.length : Int) - sh.dp) 0))
+  have h3 : exec1 goFuns (f + 1) maxStmt ⟨e2, tape⟩ = .normal ⟨e3, tape⟩ := by
+    simp [maxStmt, hmax, assignTargets, e3]
+  -- `return fmtF(dst, neg, digs, prec)`
+  obtain ⟨e4, h4⟩ := callFun_fmtF ⟨e3, tape⟩ f (.v "dst") (.v "neg") (.v "prec") dst ((bits >>> 63) != 0)
+    (asc sh.digits).toArray sh.digits.length sh.dp false (max ((sh.digits.length : Int) - sh.dp) 0)
+    (by simp [e3, e2, Env.get_set]) (by simp [e3, e2, Env.get_set]) (by simp [e3, e2, Env.get_set])
+    (by simp [e3, e2, Env.get_set, d5]) (by simp [e3, e2, Env.get_set, d6]) (by simp [e3, e2, Env.get_set, d7])
+    (by simp [e3, e2, Env.get_set, d1]) (by simp [e3, e2, Env.get_set, d2]) (by simp [e3, e2, Env.get_set])
+    (by omega) (by simp [asc]) (by omega)
+  refine ⟨e4, ?_⟩
+  rw [aff_body, exec_append, hpre]
+  simp only []
+  rw [exec, h2]
+  simp only []
+  rw [exec, h3]
+  simp only []
+  rw [exec, fmtStmt, exec1, h4]
+
+/-- **`appendFloatF` is `fmtF neg (shortest |f|)`**, for every bit pattern (zero, denormal, normal; the sign is read
+    off bit 63; even for the exponent 2047, which `appendFloat` never passes). -/
+theorem go_appendFloatF_source_tie (dst : Bytes) (bits : UInt64) (fuel : Nat) (tape : Array UInt64)
+    (hf : affFuel bits ≤ fuel) :
+    ∃ s, runFun goFuns goappendFloatF fuel ⟨[("dst", .bytes dst), ("val", .u64 bits)], tape⟩ =
+      .ret s [.bytes (dst ++ FloatFmt.fmtF ((bits >>> 63) != 0) (shortest (bits &&& 0x7fffffffffffffff)))] ∧
+      s.tape = tape := by
+  obtain ⟨e', h⟩ := appendFloatF_exec dst bits fuel tape hf
+  exact ⟨⟨e', tape⟩, by rw [runFun, h]; rfl, rfl⟩
+
+end aff
+
+/-- `appendFloatF(a1, a2)` through `callFun`, from any caller without the shared buffers -/
+theorem callFun_appendFloatF (s : St) (f : Nat) (a1 a2 : Expr) (dst : Bytes) (bits : UInt64)
+    (hS : s.env.get "Strings.B" = none) (hM : s.env.get "Message" = none)
+    (e1 : evalE s a1 = .val (.bytes dst)) (e2 : evalE s a2 = .val (.u64 bits)) (hf : affFuel bits ≤ f) :
+    ∃ e', callFun goFuns f "" "appendFloatF" [] [a1, a2] s =
+      .ret ⟨e', s.tape⟩ [.bytes (dst ++ FloatFmt.fmtF ((bits >>> 63) != 0) (shortest (absOf bits)))] := by
+  obtain ⟨e', h⟩ := appendFloatF_exec dst bits f s.tape hf
+  rw [callFun]
+  simp [goFuns, goappendFloatF, evalEs, e1, e2, hS, hM, copyPtrs, copyFields, copyGlobals, globalVars,
+    bindParams, Env.set, Env.get]
+  simp only [goappendFloatF] at h
+  rw [h]
+  simp [copyFields, copyPtrsBack]
+
+/-! ## `appendFloat` -/
+
+def nonFinStmt : Stmt := .ite (.lor (.fIsInf (.v "f")) (.fIsNaN (.v "f"))) [.ret [.nilB, (.bool true)]] []
+def absStmt : Stmt := .assign "abs" (.fabs (.v "f"))
+def rangeCond : Expr :=
+  .lor (.land (.fcmpF .ge (.v "abs") 4517329193108106637) (.fcmpF .lt (.v "abs") 4921056587992461136))
+    (.fcmpF .eq (.v "abs") 0)
+def fStmt : Stmt := .ite rangeCond [
+    .callAssign ["#c1"] "" "appendFloatF" [] [(.v "dst"), (.v "f")],
+    .ret [(.v "#c1"), (.bool false)]] []
+def eStmt : Stmt := .extAssign ["dst"] "AppendFloatE" [(.v "dst"), (.v "f")]
+/-- `n := len(dst)`, the clean-up, `return dst, nil` -/
+def cleanStmts : List Stmt := goappendFloat.body.drop 4
+theorem af_body : goappendFloat.body = [nonFinStmt, absStmt, fStmt, eStmt] ++ cleanStmts := rfl
+
+section af
+attribute [local simp] exec exec1 execCases evalE evalEs Env.get Env.set isOneOf binop convert ofE
+
+theorem clean_exec (fuel : Nat) (tape : Array UInt64) (all : Bytes) (f a : UInt64) (h4 : 4 ≤ all.size) :
+    ∃ e', exec goFuns fuel cleanStmts ⟨[("dst", .bytes all), ("f", .u64 f), ("abs", .u64 a)], tape⟩ =
+      .ret ⟨e', tape⟩ [.bytes (goClean all), .bool false] := by
+  have i4 : (0 : Int) ≤ (all.size : Int) - 4 ∧ (all.size : Int) - 4 < all.size := by omega
+  have i3 : (0 : Int) ≤ (all.size : Int) - 3 ∧ (all.size : Int) - 3 < all.size := by omega
+  have i2 : (0 : Int) ≤ (all.size : Int) - 2 ∧ (all.size : Int) - 2 < all.size := by omega
+  have i1 : (0 : Int) ≤ (all.size : Int) - 1 ∧ (all.size : Int) - 1 < all.size := by omega
+  have j1 : (all.size : Int) - 1 ≤ all.size := by omega
+  have t4 : ((all.size : Int) - 4).toNat = all.size - 4 := by omega
+  have t3 : ((all.size : Int) - 3).toNat = all.size - 3 := by omega
+  have t2 : ((all.size : Int) - 2).toNat = all.size - 2 := by omega
+  have t1 : ((all.size : Int) - 1).toNat = all.size - 1 := by omega
+  have g4 : (4 : Int) ≤ all.size := by omega
+  have g3 : (3 : Int) ≤ all.size := by omega
+  have g2 : (2 : Int) ≤ all.size := by omega
+  have g1 : (1 : Int) ≤ all.size := by omega
+  unfold goClean
+  by_cases c4 : all[all.size - 4]?.getD 0 = 101
+  · by_cases c3 : all[all.size - 3]?.getD 0 = 45
+    · by_cases c2 : all[all.size - 2]?.getD 0 = 48
+      · exact ⟨_, by
+          simp [cleanStmts, goappendFloat, i4, i3, i2, i1, j1, t4, t3, t2, t1, g4, g3, g2, g1, c4, c3, c2]
+          rfl⟩
+      · have c2' : (all[all.size - 2]?.getD 0 == 48) = false := by simpa using c2
+        exact ⟨_, by
+          simp [cleanStmts, goappendFloat, i4, i3, i2, i1, j1, t4, t3, t2, t1, g4, g3, g2, g1, c4, c3, c2, c2']
+          rfl⟩
+    · have c3' : (all[all.size - 3]?.getD 0 == 45) = false := by simpa using c3
+      exact ⟨_, by
+        simp [cleanStmts, goappendFloat, i4, i3, i2, i1, j1, t4, t3, t2, t1, g4, g3, g2, g1, c4, c3, c3']
+        rfl⟩
+  · have c4' : (all[all.size - 4]?.getD 0 == 101) = false := by simpa using c4
+    exact ⟨_, by
+      simp [cleanStmts, goappendFloat, i4, i3, i2, i1, j1, t4, t3, t2, t1, g4, g3, g2, g1, c4, c4']
+      rfl⟩
+
+/-- the test `(abs >= 1e-6 && abs < 1e21) || abs == 0` of the model -/
+def inRange (bits : UInt64) : Bool :=
+  (decide (absOf bits ≥ loBits) && decide (absOf bits < hiBits)) || absOf bits == 0
+
+theorem nonFin_fin (dst : Bytes) (bits : UInt64) (fuel : Nat) (tape : Array UInt64) (hfin : F64.isFinite bits = true) :
+    exec1 goFuns fuel nonFinStmt ⟨[("dst", .bytes dst), ("f", .u64 bits)], tape⟩ =
+      .normal ⟨[("dst", .bytes dst), ("f", .u64 bits)], tape⟩ := by
+  obtain ⟨h1, h2⟩ := fin_facts bits hfin
+  simp only [absOf, gt_iff_lt] at h1 h2
+  simp [nonFinStmt, h1, h2]
+
+theorem nonFin_nonfin (dst : Bytes) (bits : UInt64) (fuel : Nat) (tape : Array UInt64)
+    (hfin : F64.isFinite bits = false) :
+    exec1 goFuns fuel nonFinStmt ⟨[("dst", .bytes dst), ("f", .u64 bits)], tape⟩ =
+      .ret ⟨[("dst", .bytes dst), ("f", .u64 bits)], tape⟩ [.bytes #[], .bool true] := by
+  rcases nonfin_facts bits hfin with h1 | ⟨h1, h2⟩
+  · simp only [absOf] at h1
+    simp [nonFinStmt, h1]
+  · simp only [absOf, gt_iff_lt] at h1 h2
+    simp [nonFinStmt, h1, h2]
+
+theorem rangeCond_eval (dst : Bytes) (bits : UInt64) (tape : Array UInt64) (hfin : F64.isFinite bits = true) :
+    evalE ⟨[("dst", .bytes dst), ("f", .u64 bits), ("abs", .u64 (absOf bits))], tape⟩ rangeCond =
+      .val (.bool (inRange bits)) := by
+  have hx := (isFinite_iff bits).1 hfin
+  rw [exOf_eq] at hx
+  have ha : (absOf bits).toNat ≤ 0x7ff0000000000000 := by rw [absOf_toNat]; omega
+  obtain ⟨l1, -, -⟩ := fcmpBits_pos (absOf bits) 4517329193108106637 ha (by decide)
+  obtain ⟨-, l2, -⟩ := fcmpBits_pos (absOf bits) 4921056587992461136 ha (by decide)
+  obtain ⟨-, -, l3⟩ := fcmpBits_pos (absOf bits) 0 ha (by decide)
+  unfold inRange
+  rw [loBits_eq, hiBits_eq]
+  generalize h1 : decide (absOf bits ≥ 4517329193108106637) = b1 at l1 ⊢
+  generalize h2 : decide (absOf bits < 4921056587992461136) = b2 at l2 ⊢
+  generalize h3 : (absOf bits == 0) = b3 at l3 ⊢
+  cases b1 <;> cases b2 <;> cases b3 <;> simp [rangeCond, l1, l2, l3]
+
+theorem abs_exec (dst : Bytes) (bits : UInt64) (fuel : Nat) (tape : Array UInt64) :
+    exec1 goFuns fuel absStmt ⟨[("dst", .bytes dst), ("f", .u64 bits)], tape⟩ =
+      .normal ⟨[("dst", .bytes dst), ("f", .u64 bits), ("abs", .u64 (absOf bits))], tape⟩ := by
+  simp [absStmt, absOf]
+
+/-- fuel for `appendFloat(dst, f)`: none on the `'e'` path and for Inf/NaN; on the `'f'` path the two calls and the
+    longer loop of `fmtF` -/
+def floatFuel (bits : UInt64) : Nat := if inRange bits then affFuel bits + 1 else 0
+
+/-- the `'f'` path -/
+theorem appendFloat_F (dst : Bytes) (bits : UInt64) (fuel : Nat) (tape : Array UInt64)
+    (hfin : F64.isFinite bits = true) (hr : inRange bits = true) (hf : affFuel bits + 1 ≤ fuel) :
+    ∃ e', exec goFuns fuel goappendFloat.body ⟨[("dst", .bytes dst), ("f", .u64 bits)], tape⟩ =
+      .ret ⟨e', tape⟩ [.bytes (dst ++ FloatFmt.fmtF ((bits >>> 63) != 0) (shortest (absOf bits))), .bool false] := by
+  obtain ⟨f, rfl⟩ : ∃ f, fuel = f + 1 := ⟨fuel - 1, by omega⟩
+  obtain ⟨e', hc⟩ := callFun_appendFloatF ⟨[("dst", .bytes dst), ("f", .u64 bits), ("abs", .u64 (absOf bits))], tape⟩ f
+    (.v "dst") (.v "f") dst bits (by simp) (by simp) (by simp) (by simp) (by omega)
+  simp only [] at hc
+  refine ⟨e'.set "#c1" (.bytes (dst ++ FloatFmt.fmtF ((bits >>> 63) != 0) (shortest (absOf bits)))), ?_⟩
+  rw [af_body]
+  simp only [List.cons_append, List.nil_append]
+  rw [exec, nonFin_fin dst bits _ tape hfin]
+  simp only []
+  rw [exec, abs_exec]
+  simp only []
+  rw [exec, fStmt, exec1, rangeCond_eval dst bits tape hfin, hr]
+  simp only []
+  rw [exec, exec1, hc]
+  simp [assignTargets, Env.get_set]
+
+/-- the `'e'` path -/
+theorem appendFloat_E (dst : Bytes) (bits : UInt64) (fuel : Nat) (tape : Array UInt64)
+    (hfin : F64.isFinite bits = true) (hr : inRange bits = false) :
+    ∃ e', exec goFuns fuel goappendFloat.body ⟨[("dst", .bytes dst), ("f", .u64 bits)], tape⟩ =
+      .ret ⟨e', tape⟩
+        [.bytes (dst ++ cleanExp (fmtE ((bits >>> 63) != 0) (shortest (absOf bits)))), .bool false] := by
+  obtain ⟨e', hc⟩ := clean_exec fuel tape (dst ++ fmtE ((bits >>> 63) != 0) (shortest (absOf bits))) bits (absOf bits)
+    (by have := fmtE_size ((bits >>> 63) != 0) (shortest (absOf bits)); simp; omega)
+  rw [goClean_append _ _ (fmtE_size _ _)] at hc
+  refine ⟨e', ?_⟩
+  rw [af_body]
+  simp only [List.cons_append, List.nil_append]
+  rw [exec, nonFin_fin dst bits _ tape hfin]
+  simp only []
+  rw [exec, abs_exec]
+  simp only []
+  rw [exec, fStmt, exec1, rangeCond_eval dst bits tape hfin, hr]
+  have he : exec1 goFuns fuel eStmt ⟨[("dst", .bytes dst), ("f", .u64 bits), ("abs", .u64 (absOf bits))], tape⟩ =
+      .normal ⟨[("dst", .bytes (dst ++ fmtE ((bits >>> 63) != 0) (shortest (absOf bits)))), ("f", .u64 bits),
+        ("abs", .u64 (absOf bits))], tape⟩ := by
+    simp [eStmt, extCall, assignTargets, absOf]
+  simp only [exec, he]
+  exact hc
+
+end af
+
+/-- enough fuel for `appendFloat(dst, f)` (an explicit function of the bits; the buffer does not matter) -/
+def fuelOK (fuel : Nat) (bits : UInt64) : Prop := floatFuel bits ≤ fuel
+
+instance (fuel : Nat) (bits : UInt64) : Decidable (fuelOK fuel bits) := by unfold fuelOK; infer_instance
+
+theorem appendFloat_none_iff (bits : UInt64) : FloatFmt.appendFloat bits = none ↔ F64.isFinite bits = false := by
+  unfold FloatFmt.appendFloat
+  cases F64.isFinite bits <;> simp
+  split <;> simp
+
+/-- the model's branch condition is `inRange` -/
+theorem appendFloat_model (bits : UInt64) (hfin : F64.isFinite bits = true) :
+    FloatFmt.appendFloat bits = some
+      (if inRange bits then FloatFmt.fmtF ((bits >>> 63) != 0) (shortest (absOf bits))
+       else cleanExp (fmtE ((bits >>> 63) != 0) (shortest (absOf bits)))) := by
+  unfold FloatFmt.appendFloat inRange absOf
+  simp only [hfin, Bool.not_true, Bool.false_eq_true, if_false]
+  split <;> rfl
+
+/-- **`appendFloat`**: the hand model `FloatFmt.appendFloat` is the meaning of the translated source — for every
+    buffer, every float64 (by its bits), every tape and every fuel of at least `floatFuel bits`, the interpreter
+    returns (never panics, is never stuck, does not run out of fuel) `dst ++ b, nil` when the model says `some b`
+    and `nil, err` when it says `none` (Inf, NaN); the tape is untouched. -/
+theorem go_floatfmt_source_tie (dst : Bytes) (bits : UInt64) (fuel : Nat) (tape : Array UInt64)
+    (hf : fuelOK fuel bits) :
+    (∀ b, FloatFmt.appendFloat bits = some b →
+       ∃ s, runFun goFuns goappendFloat fuel ⟨[("dst", .bytes dst), ("f", .u64 bits)], tape⟩ =
+         .ret s [.bytes (dst ++ b), .bool false] ∧ s.tape = tape) ∧
+    (FloatFmt.appendFloat bits = none →
+       ∃ s, runFun goFuns goappendFloat fuel ⟨[("dst", .bytes dst), ("f", .u64 bits)], tape⟩ =
+         .ret s [.bytes #[], .bool true] ∧ s.tape = tape) := by
+  constructor
+  · intro b hb
+    have hfin : F64.isFinite bits = true := by
+      cases h : F64.isFinite bits
+      · rw [(appendFloat_none_iff bits).2 h] at hb; cases hb
+      · rfl
+    rw [appendFloat_model bits hfin] at hb
+    simp only [Option.some.injEq] at hb
+    subst hb
+    unfold fuelOK floatFuel at hf
+    cases hr : inRange bits
+    · obtain ⟨e', h⟩ := appendFloat_E dst bits fuel tape hfin hr
+      exact ⟨⟨e', tape⟩, by rw [runFun, h]; simp, rfl⟩
+    · rw [hr] at hf
+      obtain ⟨e', h⟩ := appendFloat_F dst bits fuel tape hfin hr (by simpa using hf)
+      exact ⟨⟨e', tape⟩, by rw [runFun, h]; simp, rfl⟩
+  · intro hn
+    have hfin := (appendFloat_none_iff bits).1 hn
+    refine ⟨⟨[("dst", .bytes dst), ("f", .u64 bits)], tape⟩, ?_, rfl⟩
+    rw [runFun, af_body]
+    simp only [List.cons_append, List.nil_append]
+    rw [exec, nonFin_nonfin dst bits fuel tape hfin]
 
 end SJ.GoFloatFmt
